@@ -188,5 +188,5 @@ func TestC04(t *testing.T) {
 		return
 	}
 	r.CheckKnown(parts)
-	r.Rapid("histories", r.N(4000, 120000), c04Prop)
+	r.Rapid("histories", r.N(12000, 200000), c04Prop)
 }
